@@ -197,6 +197,108 @@ pub fn small_scope() -> Vec<Case> {
     out
 }
 
+/// a minimal term of every constructor (atoms: one name each kind; compounds over a, b)
+pub fn minimal_terms() -> Vec<D> {
+    let a = D::word("a");
+    let b = D::word("b");
+    let mut out = vec![
+        D::word("c"), D::word("7"), D::placeholder(), D::atom(IVar, "x"), D::atom(IVar, "7"), D::atom(DVar, "x"), D::atom(QVar, "x"), D::atom(QVar, "7"),
+        D::interval(7), D::atom(Op, "x"),
+    ];
+    for k in ALL_KINDS {
+        if k.is_atom() {
+            continue;
+        }
+        if k == Neg {
+            out.push(D::node(k, vec![a.clone()]));
+        } else if k.is_image() {
+            out.push(D::image(k, 0, vec![a.clone()]));
+            out.push(D::image(k, 1, vec![a.clone(), b.clone()]));
+            out.push(D::image(k, 2, vec![a.clone(), b.clone()]));
+        } else if k.is_multi() {
+            out.push(D::node(k, vec![a.clone()]));
+            out.push(D::node(k, vec![a.clone(), b.clone()]));
+        } else {
+            out.push(D::node(k, vec![a.clone(), b.clone()]));
+        }
+    }
+    out
+}
+
+/// every constructor directly inside every constructor, in every position (first / middle / last /
+/// only component, every image index), in every format, as a bare term, as a judgement and as a
+/// question task — "a particular constructor inside another particular constructor in one
+/// particular format" is a finite space and is walked completely
+pub fn nested_pairs() -> Vec<Case> {
+    let mut out = vec![];
+    let a = D::word("a");
+    let b = D::word("b");
+    let inner = minimal_terms();
+    for fi in 0..3usize {
+        let mut terms: Vec<D> = vec![];
+        for c in &inner {
+            for k in ALL_KINDS {
+                if k.is_atom() {
+                    continue;
+                }
+                // a direct placeholder cannot be told from an image's own placeholder
+                let ph = c.k == Placeholder;
+                if k == Neg {
+                    terms.push(D::node(k, vec![c.clone()]));
+                } else if k.is_image() {
+                    if ph {
+                        continue;
+                    }
+                    terms.push(D::image(k, 0, vec![c.clone()]));
+                    terms.push(D::image(k, 1, vec![c.clone()]));
+                    for i in 0..=2 {
+                        terms.push(D::image(k, i, vec![c.clone(), b.clone()]));
+                        terms.push(D::image(k, i, vec![a.clone(), c.clone()]));
+                    }
+                } else if k.is_multi() {
+                    terms.push(D::node(k, vec![c.clone()]));
+                    terms.push(D::node(k, vec![c.clone(), b.clone()]));
+                    terms.push(D::node(k, vec![a.clone(), c.clone()]));
+                    terms.push(D::node(k, vec![a.clone(), c.clone(), b.clone()]));
+                } else {
+                    terms.push(D::node(k, vec![c.clone(), b.clone()]));
+                    terms.push(D::node(k, vec![a.clone(), c.clone()]));
+                    terms.push(D::node(k, vec![c.clone(), c.clone()]));
+                }
+            }
+        }
+        for t in terms {
+            out.push((fi, ND::Term(t.clone())));
+            out.push((fi, ND::Sentence(SD { term: t.clone(), punct: P::Judgement, stamp: St::Fixed(-7), truth: vec![F::of(1.0), F::of(0.9)] })));
+            out.push((fi, ND::Task(TD { budget: vec![F::of(0.5), F::of(0.75)], s: SD { term: t, punct: P::Question, stamp: St::Future, truth: vec![] } })));
+        }
+        // every decoration combination behind every kind of term tail
+        let stamps = [St::Eternal, St::Past, St::Present, St::Future, St::Fixed(-1), St::Fixed(30000)];
+        let truths: [Vec<F>; 3] = [vec![], vec![F::of(1.0)], vec![F::of(0.0), F::of(0.9)]];
+        let budgets: [Vec<F>; 4] = [vec![], vec![F::of(0.5)], vec![F::of(0.5), F::of(0.0)], vec![F::of(1.0), F::of(0.75), F::of(0.4)]];
+        for base in &inner {
+            if base.k == Placeholder {
+                continue;
+            }
+            for p in ALL_P {
+                for st in stamps {
+                    for tr in &truths {
+                        if matches!(p, P::Question | P::Quest) && !tr.is_empty() {
+                            continue;
+                        }
+                        let s = SD { term: base.clone(), punct: p, stamp: st, truth: tr.clone() };
+                        out.push((fi, ND::Sentence(s.clone())));
+                        for bu in &budgets {
+                            out.push((fi, ND::Task(TD { s: s.clone(), budget: bu.clone() })));
+                        }
+                    }
+                }
+            }
+        }
+    }
+    out
+}
+
 pub fn strategy() -> BoxedStrategy<Case> {
     gen::fmt_and(|fi| gen::narsese(gen::TermOpts::main(fi)))
 }
@@ -280,6 +382,13 @@ pub fn streams() -> Vec<Box<dyn AnyStream>> {
             check: Box::new(check),
         }),
         Box::new(Stream::<Case> {
+            name: "nested-pairs",
+            quick: 0,
+            thorough: 0,
+            source: Source::Enum(Box::new(|_| Box::new(nested_pairs().into_iter()))),
+            check: Box::new(check),
+        }),
+        Box::new(Stream::<Case> {
             name: "very-deep",
             quick: 150,
             thorough: 6_000,
@@ -298,7 +407,7 @@ pub fn streams() -> Vec<Box<dyn AnyStream>> {
 
 pub const PROP: Prop = Prop {
     id: "C01",
-    rule: "cases = (format, description of a well-formed enum term/sentence/task) generated by construction (recursive mix of all 30 constructors, deep chains to depth 40, wide compounds to 12 components, 4 punctuations, 5 stamp kinds incl. isize::MIN/MAX, 0-2 truth and 0-3 budget numbers from a special pool ∪ uniform [0,1]) plus a small-scope enumeration (every constructor × short component lists × all image indices × all decorations); non-trivial = anything but a bare word term; distinct = FNV fingerprint of (format, description)",
+    rule: "cases = (format, description of a well-formed enum term/sentence/task) generated by construction (recursive mix of all 30 constructors, deep chains to depth 40, wide compounds to 12 components, 4 punctuations, 5 stamp kinds incl. isize::MIN/MAX, 0-2 truth and 0-3 budget numbers from a special pool ∪ uniform [0,1]) plus a small-scope enumeration (every constructor × short component lists × all image indices × all decorations); stream nested-pairs enumerates every constructor directly inside every constructor in every position / image index × format × {term, judgement, question task} and every decoration combination behind every kind of term; stream han-fragments enumerates Han names made of one character of a multi-character keyword in every position; stream very-deep has 100–600 levels / 100–400 components; names come from the whole identifier space (any script block, anything above U+1F2FF, invisible letters, 1–300 characters), interval and stamp numbers are magnitude-uniform; non-trivial = anything but a bare word term; distinct = FNV fingerprint of (format, description)",
     assumptions: &[
         "harness canonical form (sorted/deduplicated unordered nodes, sorted symmetric operands, numbers by bit pattern) is the semantic identity of C06",
         "values are built from the public enum variants directly; proptest, rustc and std are trusted",
